@@ -1,6 +1,7 @@
 (* C15 — numeric encoding of trials is invertible and always decodes into the space.  Statements only. *)
 From Coq Require Import Reals.
 From VZ Require Import Base.Prelude Model.Space Model.Conv Proofs.SpaceP Proofs.ConvP Gen.Scalers Proofs.ScaleR.
+From VZ Require Model.ScaleDispatch Gen.ScaleDispatchSrc Proofs.ScaleDispatchSrcP.
 Close Scope R_scope.
 Open Scope Q_scope.
 
@@ -80,3 +81,36 @@ Proof.
   - apply (lin_roundtrip lo hi H).
 Qed.
 Print Assumptions C15_linear_scale.
+
+(* WHICH formula is applied to which parameter, as scaler_from_spec and ParameterConfig.continuify decide it today
+   (Gen/ScaleDispatchSrc.v, regenerated from converters/core.py and parameter_config.py on every run): over a positive range
+   lo < hi the formula is the one of the parameter's scale type - also for an INTEGER / DISCRETE parameter that was turned into
+   a continuous one (continuify keeps LINEAR, LOG and REVERSE_LOG); a zero-width range is never divided by its width (the single
+   value is shifted to 0.5); a log-type scale over a range touching zero is refused, not scaled. *)
+Theorem C15_source_formula_follows_scale_type : forall lo hi s, (0 < lo)%Q -> (lo < hi)%Q ->
+  ScaleDispatch.dispatch ScaleDispatchSrc.src_dispatch true true lo hi s = ScaleDispatch.OScale (ScaleDispatch.kind_of_scale s) /\
+  ScaleDispatch.dispatch ScaleDispatchSrc.src_dispatch true true lo hi (ScaleDispatchSrc.src_continuify_scale s)
+    = ScaleDispatch.OScale (ScaleDispatch.kind_of_scale s).
+Proof.
+  intros lo hi s H1 H2. split.
+  - exact (ScaleDispatchSrcP.src_formula_follows_scale lo hi s H1 H2).
+  - exact (ScaleDispatchSrcP.src_continuified_formula lo hi s H1 H2).
+Qed.
+Print Assumptions C15_source_formula_follows_scale_type.
+
+Theorem C15_source_zero_width_is_shifted : forall lo s,
+  ScaleDispatch.dispatch ScaleDispatchSrc.src_dispatch true true lo lo s = ScaleDispatch.OShiftHalf.
+Proof. exact ScaleDispatchSrcP.src_zero_width_shifts. Qed.
+Print Assumptions C15_source_zero_width_is_shifted.
+
+Theorem C15_source_log_scale_refuses_nonpositive : forall lo hi s, (lo < hi)%Q -> (lo <= 0)%Q ->
+  (s = ScaleDispatch.SLog \/ s = ScaleDispatch.SReverseLog) ->
+  ScaleDispatch.dispatch ScaleDispatchSrc.src_dispatch true true lo hi s = ScaleDispatch.ORefuse.
+Proof. exact ScaleDispatchSrcP.src_log_refuses_nonpositive. Qed.
+Print Assumptions C15_source_log_scale_refuses_nonpositive.
+
+Example C15_dispatch_nonvacuous :
+  ScaleDispatch.dispatch ScaleDispatchSrc.src_dispatch true true (1 # 2) 8 (ScaleDispatchSrc.src_continuify_scale ScaleDispatch.SReverseLog)
+    = ScaleDispatch.OScale ScaleDispatch.FRLog /\
+  ScaleDispatch.dispatch ScaleDispatchSrc.src_dispatch true true (5 # 2) (5 # 2) ScaleDispatch.SLinear = ScaleDispatch.OShiftHalf.
+Proof. split; reflexivity. Qed.
